@@ -210,7 +210,7 @@ def handmade_corpus() -> list[tuple[bytes, bytes]]:
     """Bodies in the spirit of the quantifier: empty / body-less / payloads of CR, LF, dashes,
     boundary look-alikes, long lines, binary, preamble / epilogue, three line-break styles."""
     out = []
-    for bnd in (b"b", b"foo", b"----WebKitFormBoundary7MA4YWxk"):
+    for bnd in (b"b", b"foo", b"----WebKitFormBoundary7MA4YWxk", b"-", b"--"):
         look = b"--" + bnd
         payloads = [
             b"", b"x", b"\r", b"\n", b"\r\n", b"\r\n\r\n", b"-", b"--", look[:-1], look + b"x", b"\r\n" + look[:-1],
